@@ -377,8 +377,9 @@ class ProxyFile:
 
     MUTATORS = ("write", "writelines", "truncate")
 
-    def __init__(self, fh, name: str | None = None, budget: int | None = None, log_calls: bool = False):
+    def __init__(self, fh, name: str | None = None, budget: int | None = None, log_calls: bool = False, claims_writable: bool = False):
         self._fh = fh
+        self.claims_writable = claims_writable  # answer writable() with True (like BytesIO / "r+b" handles do)
         if name is not None:
             self.name = name
         self.budget = budget
@@ -453,7 +454,7 @@ class ProxyFile:
         return True
 
     def writable(self) -> bool:
-        return False
+        return self.claims_writable
 
     def fileno(self):
         raise io.UnsupportedOperation("fileno")
@@ -499,8 +500,18 @@ class ProxyFile:
         }
 
 
-def as_handle(backing, *, proxy: bool = True, name: str | None = None, budget: int | None = None, log_calls=False):
-    """bytes | SparseFile -> a (proxied) binary handle."""
+_HANDLE_COUNTER = [0]
+
+
+def as_handle(backing, *, proxy: bool = True, name: str | None = None, budget: int | None = None, log_calls=False, claims_writable=None):
+    """bytes | SparseFile -> a (proxied) binary handle.
+
+    Every other proxy answers writable() with True (as BytesIO and "r+b" handles do): code that writes to a
+    handle 'because it can' is then seen by the mutation monitor in every workload.
+    """
+    if claims_writable is None:
+        _HANDLE_COUNTER[0] += 1
+        claims_writable = _HANDLE_COUNTER[0] % 2 == 0
     if isinstance(backing, (bytes, bytearray)):
         fh = io.BytesIO(bytes(backing))
     elif isinstance(backing, SparseFile):
@@ -508,7 +519,7 @@ def as_handle(backing, *, proxy: bool = True, name: str | None = None, budget: i
     else:
         fh = backing
     if proxy:
-        return ProxyFile(fh, name=name, budget=budget, log_calls=log_calls)
+        return ProxyFile(fh, name=name, budget=budget, log_calls=log_calls, claims_writable=claims_writable)
     return fh
 
 
